@@ -1501,6 +1501,74 @@ fn main() {
             println!("injected_failures={}", fs.failures());
             std::process::exit(0);
         }
+        // flush_request_during_batch : a writer is in the middle of inserting a 4-key batch into the memtable (forced schedule at
+        // the memtable.after_insert point) when another thread calls compact_range; after both are done every key of the
+        // acknowledged batch must be readable
+        "flush_request_during_batch" => {
+            use raindb::{ReadOptions, WriteOptions};
+            let mut o = raindb::DbOptions::with_memory_env();
+            o.db_path = "db".to_string();
+            o.create_if_missing = true;
+            let db = std::sync::Arc::new(raindb::DB::open(o).expect("open"));
+            let inserts = std::sync::Arc::new(std::sync::atomic::AtomicUsize::new(0));
+            let handle: std::sync::Arc<std::sync::Mutex<Option<std::thread::JoinHandle<()>>>> = Default::default();
+            let (db2, inserts2, handle2) = (std::sync::Arc::clone(&db), std::sync::Arc::clone(&inserts), std::sync::Arc::clone(&handle));
+            v::set_sched_hook(Some(std::sync::Arc::new(move |name: &str| {
+                if name == "memtable.after_insert" && inserts2.fetch_add(1, std::sync::atomic::Ordering::SeqCst) + 1 == 2 {
+                    let db3 = std::sync::Arc::clone(&db2);
+                    let (tx, rx) = std::sync::mpsc::channel();
+                    *handle2.lock().unwrap() = Some(std::thread::spawn(move || {
+                        db3.compact_range(None..None);
+                        let _ = tx.send(());
+                    }));
+                    // the request may (and on the documented mechanism must) block until this writer is done
+                    let _ = rx.recv_timeout(std::time::Duration::from_secs(2));
+                }
+            })));
+            let mut batch = raindb::Batch::new();
+            for k in ["k1", "k2", "k3", "k4"] {
+                batch.add_put(k.as_bytes().to_vec(), b"value".to_vec());
+            }
+            let applied = db.apply(WriteOptions::default(), batch).is_ok();
+            v::set_sched_hook(None);
+            if let Some(h) = handle.lock().unwrap().take() {
+                let _ = h.join();
+            }
+            println!("applied={}", applied);
+            let vis: Vec<String> = ["k1", "k2", "k3", "k4"].iter().map(|k| db.get(ReadOptions::default(), k.as_bytes()).is_ok().to_string()).collect();
+            println!("visible={}", vis.join(","));
+        }
+        // large_batch_visibility : a batch of six 300 KiB values (> 1 MiB together); a reader looks at the database while the 5th
+        // value is being inserted (forced schedule): it must see none of the keys; afterwards all of them
+        "large_batch_visibility" => {
+            use raindb::{ReadOptions, WriteOptions};
+            let mut o = raindb::DbOptions::with_memory_env();
+            o.db_path = "db".to_string();
+            o.create_if_missing = true;
+            o.max_memtable_size = 64 * 1024 * 1024;
+            let db = std::sync::Arc::new(raindb::DB::open(o).expect("open"));
+            let keys: Vec<String> = (0..6).map(|i| format!("big{}", i)).collect();
+            let inserts = std::sync::Arc::new(std::sync::atomic::AtomicUsize::new(0));
+            let seen: std::sync::Arc<std::sync::Mutex<String>> = std::sync::Arc::new(std::sync::Mutex::new("not-run".to_string()));
+            let (db2, inserts2, seen2, keys2) = (std::sync::Arc::clone(&db), std::sync::Arc::clone(&inserts), std::sync::Arc::clone(&seen), keys.clone());
+            v::set_sched_hook(Some(std::sync::Arc::new(move |name: &str| {
+                if name == "memtable.after_insert" && inserts2.fetch_add(1, std::sync::atomic::Ordering::SeqCst) + 1 == 5 {
+                    let db3 = std::sync::Arc::clone(&db2);
+                    let keys3 = keys2.clone();
+                    let r = std::thread::spawn(move || keys3.iter().map(|k| db3.get(ReadOptions::default(), k.as_bytes()).is_ok().to_string()).collect::<Vec<_>>().join(",")).join().unwrap();
+                    *seen2.lock().unwrap() = r;
+                }
+            })));
+            let mut batch = raindb::Batch::new();
+            for (i, k) in keys.iter().enumerate() {
+                batch.add_put(k.as_bytes().to_vec(), vec![b'a' + i as u8; 300 * 1024]);
+            }
+            let applied = db.apply(WriteOptions::default(), batch).is_ok();
+            v::set_sched_hook(None);
+            println!("applied={}", applied);
+            println!("during={}", seen.lock().unwrap());
+            println!("after={}", keys.iter().map(|k| db.get(ReadOptions::default(), k.as_bytes()).is_ok().to_string()).collect::<Vec<_>>().join(","));
+        }
         // second_open : on the disk file system (real flock): a database is open; a second open of the same path and
         // destroy_database must fail, the first instance keeps working; after it is closed the path can be opened again
         "second_open" => {
